@@ -10,8 +10,8 @@ Import ListNotations.
 (* ---- termination of Filters.safe_name ------------------------------------------------ *)
 (* guard: the first ASCII alphanumeric character of the safe prefix is a letter *)
 Theorem C07_safe_name_terminates : forall p k name,
-  prefix_ok p = true -> exists r, safe_name 12 p (apply_case k) name = SOk r.
-Proof. exact safe_name_terminates_12. Qed.
+  prefix_ok p = true -> exists r, safe_name 15 p (apply_case k) name = SOk r.
+Proof. exact safe_name_terminates_15. Qed.
 Print Assumptions C07_safe_name_terminates.
 
 (* Filters.__init__ now refuses a configuration whose safe prefixes fail that test (fix for
@@ -131,11 +131,22 @@ Theorem C07_classes_distinct_reserved_suffix_refuted :
 Proof. exact classes_distinct_reserved_suffix_refuted. Qed.
 Print Assumptions C07_classes_distinct_reserved_suffix_refuted.
 
-Theorem C07_classes_distinct_abstract_suffix_refuted :
-  ~ NoDup (map (fun c => alnum (c_name c))
-               (rename_duplicate_classes true [cl "A" true; cl "a" false; cl "A_abstract" false])).
-Proof. exact classes_distinct_abstract_suffix_refuted. Qed.
-Print Assumptions C07_classes_distinct_abstract_suffix_refuted.
+(* add_abstract_suffix goes through the same freshness test since fix 5e6ea57 (the former
+   refutation A(abstract), a, A_abstract is now a positive example) *)
+Theorem C07_abstract_suffix_fresh : forall u l res p,
+  (p < List.length l)%nat -> res_ok u l res ->
+  let st' := add_abstract_suffix u (l, res) p in
+  ~ In (c_cmp u (cget (fst st') p)) (map (c_cmp u) l) /\
+  (forall i, i <> p -> cget (fst st') i = cget l i) /\
+  res_ok u (fst st') (snd st').
+Proof. exact abstract_suffix_fresh. Qed.
+Print Assumptions C07_abstract_suffix_fresh.
+
+Example C07_abstract_witness_now_distinct :
+  map c_name (rename_duplicate_classes true [cl "A" true; cl "a" false; cl "A_abstract" false])
+  = [Safe.lit "A_abstract_1"; Safe.lit "a"; Safe.lit "A_abstract"].
+Proof. exact abstract_witness_now_distinct. Qed.
+Print Assumptions C07_abstract_witness_now_distinct.
 
 (* the hand-written keyword list of the specification is the interpreter's keyword.kwlist *)
 Example C07_keywords_match_interpreter :
